@@ -1,7 +1,142 @@
-//! C18 harness module (not implemented yet).
+//! C18: coverage-counter windows.  Built a second time with
+//!   RUSTFLAGS="-C instrument-coverage --cfg sl_crypto_verif --cfg sl_cov"  (nightly, target dir build/cargo-cov)
+//! this module runs each constant-time operation inside a window [reset counters .. write profile]
+//! for several secret variants; tools (checks/c18.py) compare the per-function counters between
+//! variants and with the predictions of the Coq skeletons.  Without cfg(sl_cov) it only lists the plan.
 use crate::util::*;
+use crypto_bigint::{Encoding, Uint, U128, U256, U512};
+use rand::{Rng, RngCore};
+use std::io::Write;
 
-pub fn run(_kv: &Args) -> i32 {
-    eprintln!("c18: not implemented");
-    2
+#[cfg(sl_cov)]
+extern "C" {
+    fn __llvm_profile_reset_counters();
+    fn __llvm_profile_write_file() -> i32;
+    fn __llvm_profile_set_filename(name: *const std::os::raw::c_char);
+}
+
+fn window<F: FnOnce()>(out: &str, name: &str, f: F) {
+    #[cfg(sl_cov)]
+    unsafe {
+        let path = std::ffi::CString::new(format!("{out}/cov/{name}.profraw")).unwrap();
+        __llvm_profile_set_filename(path.as_ptr());
+        __llvm_profile_reset_counters();
+        f();
+        __llvm_profile_write_file();
+        // leak the CString: the runtime keeps the pointer
+        std::mem::forget(path);
+    }
+    #[cfg(not(sl_cov))]
+    {
+        let _ = (out, name);
+        f();
+    }
+}
+
+type SK = sl_paillier::SK<{ U512::LIMBS }, { U256::LIMBS }, { U128::LIMBS }>;
+
+fn big_prime(r: &mut rand_chacha::ChaCha20Rng) -> U128 {
+    loop {
+        let p: U128 = crypto_primes_shim(r);
+        // top two bits set: p >= 0.75 * 2^128, so p*q has 256 bits and p^2 has 256 bits for every such pair
+        if p.bits_vartime() == 128 && bool::from(p.bit(126)) {
+            return p;
+        }
+    }
+}
+
+fn crypto_primes_shim(r: &mut rand_chacha::ChaCha20Rng) -> U128 {
+    // SK::gen_pq draws two primes; take the first
+    let (p, _q) = SK::gen_pq(r);
+    p
+}
+
+pub fn run(kv: &Args) -> i32 {
+    let seed = kv.u64("seed", 1);
+    let out = kv.str("out", "/verif/build/run/C18");
+    std::fs::create_dir_all(format!("{out}/cov")).unwrap();
+    let nvar = kv.u64("variants", 4) as usize;
+    let mut plan = std::fs::File::create(format!("{out}/plan.txt")).unwrap();
+    let mut r = rng(seed, "c18");
+
+    // ---------------------------------------------------------------- Paillier (256-bit N configuration)
+    let mut keys = vec![];
+    for _ in 0..2 {
+        let p = big_prime(&mut r);
+        let q = big_prime(&mut r);
+        let (p, q) = if p > q { (q, p) } else { (p, q) };
+        keys.push(SK::from_pq(&p, &q));      // p < q
+        keys.push(SK::from_pq(&q, &p));      // p > q
+    }
+    for v in 0..nvar {
+        let sk = &keys[v % keys.len()];
+        let pk = sk.public_key();
+        let n: U256 = **pk.get_n();
+        let m_val: U256 = match v % 5 {
+            0 => U256::ZERO,
+            1 => U256::ONE,
+            2 => U256::ONE.shl_vartime(200),
+            3 => n.wrapping_sub(&U256::ONE),
+            _ => { let mut b = [0u8; 32]; r.fill_bytes(&mut b); U256::from_le_slice(&b).wrapping_rem(&n) }
+        };
+        let r_val: U256 = match (v / 2) % 4 {
+            0 => U256::ONE,
+            1 => U256::from_u64(2),
+            2 => n.wrapping_sub(&U256::ONE),
+            _ => { let mut b = [0u8; 32]; r.fill_bytes(&mut b); U256::from_le_slice(&b).wrapping_rem(&n) }
+        };
+        let m = pk.into_message(&m_val).unwrap();
+        let c = pk.encrypt_with_r(&m, &r_val);
+        let c2 = pk.encrypt_with_r(&pk.into_message(&U256::from_u64(77)).unwrap(), &U256::from_u64(3));
+        writeln!(plan, "paillier v={v} key={} m={} r={}", v % keys.len(), hex(&m_val.to_be_bytes()), hex(&r_val.to_be_bytes())).unwrap();
+        window(&out, &format!("paillier_encrypt_{v}"), || { std::hint::black_box(pk.encrypt_with_r(&m, &r_val)); });
+        window(&out, &format!("paillier_decrypt_{v}"), || { std::hint::black_box(sk.decrypt(&c)); });
+        window(&out, &format!("paillier_decrypt_fast_{v}"), || { std::hint::black_box(sk.decrypt_fast(&c)); });
+        window(&out, &format!("paillier_mul_{v}"), || { std::hint::black_box(pk.mul(&c2, &m)); });
+        window(&out, &format!("paillier_add_{v}"), || { std::hint::black_box(pk.add(&c, &c2)); });
+        let ip = sk.extract_n_root_init_params();
+        let z = c.to_uint().resize::<{ U256::LIMBS }>().wrapping_rem(&n);
+        window(&out, &format!("paillier_nroot_{v}"), || { std::hint::black_box(sk.extract_n_root(&z, &ip)); });
+        // negative control: the variable-time multiplication must show different counters for different scalars
+        window(&out, &format!("paillier_mulvartime_{v}"), || { std::hint::black_box(pk.mul_vartime(&c2, &m)); });
+    }
+
+    // ---------------------------------------------------------------- OT stack
+    use sl_oblivious::endemic_ot::ReceiverOutput;
+    use sl_oblivious::soft_spoken::*;
+    for v in 0..nvar {
+        let sid: [u8; 32] = r.gen();
+        // base-OT outputs: choice bits all-zero / all-one / random
+        let mut bkeys = [[[0u8; 32]; 2]; 256];
+        for k in bkeys.iter_mut() { r.fill_bytes(&mut k[0]); r.fill_bytes(&mut k[1]); }
+        let so = sl_oblivious::verif_hooks::sender_output_from_keys(&bkeys);
+        let choice: [u8; 32] = match v % 3 { 0 => [0u8; 32], 1 => [0xff; 32], _ => r.gen() };
+        let rkeys: [[u8; 32]; 256] = std::array::from_fn(|i| bkeys[i][((choice[i / 8] >> (i % 8)) & 1) as usize]);
+        let ro = ReceiverOutput::new(choice, rkeys);
+        let mut sseed = SenderOTSeed::default();
+        let mut pprf = PPRFOutput::default();
+        build_pprf(&sid, &so, &mut sseed, &mut pprf);
+        let mut rseed = ReceiverOTSeed::default();
+        writeln!(plan, "ot v={v} choice={}", hex(&choice)).unwrap();
+        window(&out, &format!("pprf_eval_{v}"), || { eval_pprf(&sid, &ro, &pprf, &mut rseed).unwrap(); });
+        // OT extension + RVOLE
+        let mut round1 = Round1Output::default();
+        let (rvr, _b) = sl_oblivious::rvole::RVOLEReceiver::new(sid, &sseed, &mut round1, &mut r);
+        window(&out, &format!("ss_sender_{v}"), || { std::hint::black_box(SoftSpokenOTSender::process(&sid, &rseed, &round1).is_ok()); });
+        use elliptic_curve::Field;
+        let a = match v % 4 {
+            0 => [k256::Scalar::ZERO, k256::Scalar::ONE],
+            1 => [-k256::Scalar::ONE, k256::Scalar::ZERO],
+            _ => [k256::Scalar::random(&mut r), k256::Scalar::random(&mut r)],
+        };
+        let mut out2 = sl_oblivious::rvole::RVOLEOutput::default();
+        let mut r2 = rng(seed, &format!("c18-rvole-{v}"));
+        window(&out, &format!("rvole_sender_{v}"), || {
+            sl_oblivious::rvole::RVOLESender::process(&sid, &rseed, &a, &round1, &mut out2, &mut r2).unwrap();
+        });
+        window(&out, &format!("rvole_receiver_{v}"), || { rvr.process(&out2).unwrap(); });
+    }
+    // the profiler runtime writes once more at exit: point it at a scratch file
+    window(&out, "_tail", || {});
+    0
 }
